@@ -262,3 +262,17 @@ REPLAY = {
                                  "std::ffi::CStr::from_bytes_with_nul(a0).ok().map(|c| c.to_bytes_with_nul().to_vec())"),
     **PROBES,
 }
+# ---- group BytesPub: the public generic `bytes_*` functions with a `&[u8]` pattern are the calls the worker entries
+# above already make (`PatternNorm::new` is the identity on `[u8]`); the `&mut` element accessors of a `&mut [u8]`
+REPLAY.update({"pub_" + k: v for k, v in list(REPLAY.items())
+               if k.startswith("bytes_") and k not in ("bytes_rfind", "bytes_trim", "bytes_trim_start", "bytes_trim_end")})
+BM = "bytes_mut"      # a `Vec<u8>`; the expressions take `&mut a0.clone()[..]`
+REPLAY.update({
+    "get_mut": ([BM, U], "konst::slice::get_mut(&mut a0.clone()[..], a1).map(|x| { *x = x.wrapping_add(1); *x })", "a0.clone().get_mut(a1).map(|x| { *x = x.wrapping_add(1); *x })"),
+    "first_mut": ([BM], "konst::slice::first_mut(&mut a0.clone()[..]).map(|x| { *x = x.wrapping_add(1); *x })", "a0.clone().first_mut().map(|x| { *x = x.wrapping_add(1); *x })"),
+    "last_mut": ([BM], "konst::slice::last_mut(&mut a0.clone()[..]).map(|x| { *x = x.wrapping_add(1); *x })", "a0.clone().last_mut().map(|x| { *x = x.wrapping_add(1); *x })"),
+    "split_first_mut": ([BM], "konst::slice::split_first_mut(&mut a0.clone()[..]).map(|(x, r)| { *x = x.wrapping_add(1); r.reverse(); (*x, r.to_vec()) })",
+                        "a0.clone().split_first_mut().map(|(x, r)| { *x = x.wrapping_add(1); r.reverse(); (*x, r.to_vec()) })"),
+    "split_last_mut": ([BM], "konst::slice::split_last_mut(&mut a0.clone()[..]).map(|(x, r)| { *x = x.wrapping_add(1); r.reverse(); (*x, r.to_vec()) })",
+                       "a0.clone().split_last_mut().map(|(x, r)| { *x = x.wrapping_add(1); r.reverse(); (*x, r.to_vec()) })"),
+})
